@@ -1,15 +1,36 @@
 #!/usr/bin/env python3
 """Re-evaluates every seeded change under /verif/seeded: negative controls (neg_*) against all twenty quick checks
 (they run first), positive seeds against the quick check of their property.  Writes seeded/RESULTS.json.
-Usage: tools/seed_matrix.py [--only prefix] [--jobs N]"""
+Usage: tools/seed_matrix.py [--only prefix] [--match substring] [--scoped] [--jobs N]"""
 import json, os, subprocess, sys, glob, threading
 from concurrent.futures import ThreadPoolExecutor
 ROOT = os.path.dirname(os.path.dirname(os.path.abspath(__file__)))
 only = sys.argv[sys.argv.index('--only') + 1] if '--only' in sys.argv else ''
+match = sys.argv[sys.argv.index('--match') + 1] if '--match' in sys.argv else ''
 jobs = int(sys.argv[sys.argv.index('--jobs') + 1]) if '--jobs' in sys.argv else 3
 path = os.path.join(ROOT, 'seeded', 'RESULTS.json')
 out = json.load(open(path)) if os.path.exists(path) else {}
 lock = threading.Lock()
+scoped = '--scoped' in sys.argv     # negative controls only against the checks that exercise the files they touch
+AREAS = [('dfa_algorithms', 'C01 C02 C04 C06 C12 C13 C14 C16 C17 C19 C20'), ('dfa.py', 'C01 C03 C04 C14 C16 C19 C20'), ('nfa', 'C01 C02 C03 C06 C12 C13 C14 C15 C16 C17 C18 C19'),
+         ('pda', 'C02 C09 C10 C12 C15 C16 C17 C19'), ('cfg', 'C02 C07 C08 C10 C12 C13 C15 C16 C19'), ('regexp', 'C02 C05 C06 C12 C13 C16 C19'),
+         ('tm', 'C02 C11 C12 C16 C17 C19'), ('automaton', 'C12 C13 C16 C17 C19'), ('notebook', 'C12 C13 C19'), ('language', 'C02 C12 C13 C14 C19'),
+         ('identifier', 'C03 C06 C18 C19'), ('global_settings', 'C02 C09 C15 C19')]
+
+
+def scope_of(d):
+    files = [l.split(' b/')[-1].strip() for l in open(os.path.join(d, 'patch.diff'), encoding='utf8') if l.startswith('diff --git')]
+    props = set()
+    for f in files:
+        base = os.path.basename(f)
+        hit = False
+        for key, ps in AREAS:
+            if key in base:
+                props |= set(ps.split())
+                hit = True
+        if not hit:
+            props |= {'C%02d' % i for i in range(1, 21)}
+    return sorted(props)
 
 
 def one(d):
@@ -18,6 +39,8 @@ def one(d):
     meta = json.load(open(os.path.join(d, 'meta.json')))
     pid = meta['property'] if meta['property'] != 'all' else 'C01'
     cmd = ['python3', os.path.join(ROOT, 'tools', 'seed_eval.py'), d, pid] + (['--all'] if neg else [])
+    if neg and scoped:
+        cmd += ['--props', ','.join(scope_of(d))]
     r = subprocess.run(cmd, capture_output=True, text=True, env=dict(os.environ, VERIF_PROCS='8'))
     try:
         res = json.loads(r.stdout)
@@ -35,7 +58,7 @@ def one(d):
         json.dump(out, open(path, 'w'), indent=1, ensure_ascii=False)
 
 
-dirs = [d for d in sorted(glob.glob(os.path.join(ROOT, 'seeded', '*'))) if os.path.isdir(d) and os.path.basename(d).startswith(only)]
+dirs = [d for d in sorted(glob.glob(os.path.join(ROOT, 'seeded', '*'))) if os.path.isdir(d) and os.path.basename(d).startswith(only) and match in os.path.basename(d)]
 dirs.sort(key=lambda d: (not os.path.basename(d).startswith('neg_'), os.path.basename(d)))
 with ThreadPoolExecutor(jobs) as ex:
     list(ex.map(one, dirs))
